@@ -183,6 +183,9 @@ def render(beh):
                 lines.append("fgate(%s, %d, %s);" % (ref, GIDX[g], ang))
             elif path == "static":
                 lines.append("Ops.sgate(%s, %d, %s);" % (ref, GIDX[g], ang))
+            elif var["k"] == "a" and n % 3 == 0:
+                lines.append("int c%d = %d; %s(v%d[c%d++]%s); if (c%d != %d) { echo(\"cursor\"); }"
+                             % (n, st["e"] - 1, g, st["v"], n, (", " + ang) if g in ROT else "", n, st["e"]))
             else:
                 lines.append("%s(%s%s);" % (g, ref, (", " + ang) if g in ROT else ""))
         elif s == "cx":
@@ -212,16 +215,25 @@ def render(beh):
                 call = "Ops.%s(%s)" % ("sm" if expr else "sms", ref)
             else:
                 call = None
+            cur = call is None and var["k"] == "a" and n % 2 == 1
+            if cur:
+                ref = "v%d[c%d++]" % (st["v"], n)
+            pre = "int c%d = %d; " % (n, st["e"] - 1) if cur else ""
+            post = " if (c%d != %d) { echo(\"cursor\"); }" % (n, st["e"]) if cur else ""
             if expr:
                 b = fresh_bit()
-                lines.append("bit %s = %s; echo(%s);" % (b, call or ("measure " + ref), b))
+                lines.append("%sbit %s = %s; echo(%s);%s" % (pre, b, call or ("measure " + ref), b, post))
             else:
-                lines.append((call + ";") if call else ("measure %s;" % ref))
+                lines.append(pre + ((call + ";") if call else ("measure %s;" % ref)) + post)
         elif s == "measarr":
             lines.append("measure v%d;" % st["v"])
         elif s == "reset":
             ref, _ = ref_text(vars_, st["v"], st["e"])
-            lines.append("reset %s;" % ref)
+            if vars_[st["v"] - 1]["k"] == "a" and n % 2 == 0:
+                # the target expression has a side effect (the usual register-clearing cursor): it is evaluated once
+                lines.append("int c%d = %d; reset v%d[c%d++]; if (c%d != %d) { echo(\"cursor\"); }" % (n, st["e"] - 1, st["v"], n, n, st["e"]))
+            else:
+                lines.append("reset %s;" % ref)
         elif s == "destroy":
             lines.append("destroy v%d;" % st["v"])
         elif s == "open":
